@@ -27,6 +27,7 @@ type Engine struct {
 	allNamed   []*types.Named
 	contracts  map[string]*Contract
 	ifaceCons  map[string]*Contract
+	funcTypeCons map[string]*Contract
 	modset     map[*ssa.Function]compSet
 	callees    map[*ssa.Function][]*ssa.Function
 	bySig      map[string][]*ssa.Function
@@ -43,7 +44,7 @@ type Engine struct {
 
 func NewEngine(repo, verifDir string) *Engine {
 	return &Engine{repo: repo, verifDir: verifDir,
-		contracts: map[string]*Contract{}, ifaceCons: map[string]*Contract{},
+		contracts: map[string]*Contract{}, ifaceCons: map[string]*Contract{}, funcTypeCons: map[string]*Contract{},
 		implCache: map[string][]*ssa.Function{}, compSorts: map[string]func(*Gen) string{},
 		nonNilResult: map[string]bool{}, effectFreeFn: map[string]bool{}, defs: map[string]*Def{}}
 }
@@ -139,6 +140,9 @@ func (e *Engine) Load(patterns []string) error {
 		}
 		for _, d := range defs {
 			e.defs[d.Name] = d
+			if d.GhostMap != "" {
+				ghostMapSorts[d.Name] = d.GhostMap
+			}
 		}
 		e.contractFiles = append(e.contractFiles, f)
 		e.addContracts(cs)
@@ -153,6 +157,9 @@ func (e *Engine) Load(patterns []string) error {
 		}
 		for _, d := range defs {
 			e.defs[d.Name] = d
+			if d.GhostMap != "" {
+				ghostMapSorts[d.Name] = d.GhostMap
+			}
 		}
 		for _, c := range cs {
 			c.Trusted = true
@@ -169,7 +176,9 @@ func (e *Engine) Load(patterns []string) error {
 
 func (e *Engine) addContracts(cs []*Contract) {
 	for _, c := range cs {
-		if c.IsIface {
+		if c.IsFuncType {
+			e.funcTypeCons[c.FullKey()] = c
+		} else if c.IsIface {
 			e.ifaceCons[c.FullKey()] = c
 		} else {
 			e.contracts[c.FullKey()] = c
@@ -469,6 +478,9 @@ func specLvalComps(e *SExpr, env map[string]types.Type, out compSet) {
 			mapSComps(u, out)
 		}
 	case SCall:
+		if len(e.Args) == 1 && ghostMapSorts[e.Name] != "" {
+			out.add(sComp{Name: "ghost." + e.Name, Kind: scGhost, Sort: ghostMapSorts[e.Name]})
+		}
 		if e.Name == "all" && len(e.Args) == 1 {
 			t := specStaticType(e.Args[0], env)
 			if t == nil {
@@ -481,3 +493,17 @@ func specLvalComps(e *SExpr, env map[string]types.Type, out compSet) {
 		}
 	}
 }
+
+// funcTypeContract: contract for a dynamic call through a value of a named func type.
+func (e *Engine) funcTypeContract(cc *ssa.CallCommon) *Contract {
+	if cc.IsInvoke() || cc.StaticCallee() != nil {
+		return nil
+	}
+	key := types.TypeString(cc.Value.Type(), nil)
+	if c, ok := e.funcTypeCons[key]; ok {
+		return c
+	}
+	return nil
+}
+
+var ghostMapSorts = map[string]string{}
